@@ -1196,7 +1196,9 @@ struct reb_orbit reb_orbit_from_particle_err(double G, struct reb_particle p, st
     // move some of the angles into [0,2pi) range
     o.f = reb_mod2pi(o.f);
     o.l = reb_mod2pi(o.l);
-    o.M = reb_mod2pi(o.M);
+    if (o.e < 1.){                          // the hyperbolic mean anomaly is not periodic
+        o.M = reb_mod2pi(o.M);
+    }
     o.theta = reb_mod2pi(o.theta);
     o.omega = reb_mod2pi(o.omega);
     
